@@ -865,8 +865,15 @@ func (chain *Chain) abandonCosiSnapshot(s *common.Snapshot) {
 // reviving it, while CacheRequeueTransaction makes every still-unfinalized
 // transaction immediately eligible for another owner/proposal.
 func (chain *Chain) retryCosiSnapshot(s *common.Snapshot) {
+	verifier := chain.CosiVerifiers[s.Hash]
+	retry := make([]crypto.Hash, 0, len(s.Transactions))
+	for _, tx := range s.Transactions {
+		if owner := chain.CosiVerifiers[tx]; owner == nil || owner == verifier {
+			retry = append(retry, tx)
+		}
+	}
 	chain.abandonCosiSnapshot(s)
-	chain.node.requeueTransactions(s.Transactions)
+	chain.node.requeueTransactions(retry)
 }
 
 // resetCosiStateForNewRound retires old-round proposals that cannot complete
